@@ -69,10 +69,10 @@ var traceStats bool
 
 func c20Filters() []model.FilterSpec {
 	return []model.FilterSpec{
-		{Params: []ct.Comp{ct.P}},                       // f0 typed
-		{Params: []ct.Comp{ct.P, ct.R1}},                // f1 typed with relation
-		{Params: []ct.Comp{ct.P}, Unsafe: true},         // f2 unsafe
-		{Params: []ct.Comp{ct.P}, With: ct.Of(ct.Q)},    // f3 typed, registered in prelude
+		{Params: []ct.Comp{ct.P}},                    // f0 typed
+		{Params: []ct.Comp{ct.P, ct.R1}},             // f1 typed with relation
+		{Params: []ct.Comp{ct.P}, Unsafe: true},      // f2 unsafe
+		{Params: []ct.Comp{ct.P}, With: ct.Of(ct.Q)}, // f3 typed, registered in prelude
 	}
 }
 
@@ -457,7 +457,7 @@ func init() {
 
 	Registry["C20"] = func(t Tier) *Check {
 		chk := &Check{ID: "C20",
-			Rule: "the same deterministic enumeration of histories (plain + relation moves through typed and ID-based paths, queries of 4 filters opened/advanced/closed in 2 slots, and the misuse family: Entity/Get(+dereference)/GetRelation/Next/Count+EntityAt on a query before the first Next, during iteration, after exhaustion and after Close; Map.Set / Unsafe.Get / Map.Get(+dereference) / GetRelation for a missing component) is executed by four separately built binaries (no tag, ark_tiny, ark_debug, ark_tiny+ark_debug), component IDs at offsets 0 and 40 (< 64 types); per history the trace (panicked/returned per call, returned handles and values, full observation of every entity and of three queries' iteration order after every call) is digested; the four digest streams must be equal; states = histories x 4 builds; non-trivial = histories containing at least one call",
+			Rule:   "the same deterministic enumeration of histories (plain + relation moves through typed and ID-based paths, queries of 4 filters opened/advanced/closed in 2 slots, and the misuse family: Entity/Get(+dereference)/GetRelation/Next/Count+EntityAt on a query before the first Next, during iteration, after exhaustion and after Close; Map.Set / Unsafe.Get / Map.Get(+dereference) / GetRelation for a missing component) is executed by four separately built binaries (no tag, ark_tiny, ark_debug, ark_tiny+ark_debug), component IDs at offsets 0 and 40 (< 64 types); per history the trace (panicked/returned per call, returned handles and values, full observation of every entity and of three queries' iteration order after every call) is digested; the four digest streams must be equal; states = histories x 4 builds; non-trivial = histories containing at least one call",
 			Assume: []string{"panic messages are not compared", "a call includes dereferencing the pointers it returns"},
 		}
 		chk.Special = func(tier Tier, rep *engine.Report) error {
